@@ -102,7 +102,7 @@ Print Assumptions C20_rejected_is_recovered_once_refuted.
    hash that is rejected twice is kept twice *)
 Theorem C20_without_raw_fallback_refuted :
   exists (h : list op) (lit : N),
-    count_lit lit (rec_rows (run (fun _ => None) (mkFacts true true true true true false) (mkCfg 100 100 100000 100) (fun _ => 0) (init_store 100) h)) = 2%nat.
+    count_lit lit (rec_rows (run (fun _ => None) (mkFacts true true true true true false true) (mkCfg 100 100 100000 100) (fun _ => 0) (init_store 100) h)) = 2%nat.
 Proof.
   exists [OConnCreate inbox_name; OAppend inbox_name 7%N RemFail; OAppend inbox_name 7%N RemFail], 7%N. vm_compute. reflexivity.
 Qed.
@@ -165,7 +165,7 @@ Print Assumptions C20_move_copy_out_effect_on_recovery.
    stores it a second time *)
 Theorem C20_early_erase_refuted :
   exists (h : list op) (lit : N),
-    count_lit lit (rec_rows (run (fun l => Some l) (mkFacts true true true true false true) (mkCfg 100 100 100000 100) (fun _ => 0) (init_store 100) h)) = 2%nat.
+    count_lit lit (rec_rows (run (fun l => Some l) (mkFacts true true true true false true true) (mkCfg 100 100 100000 100) (fun _ => 0) (init_store 100) h)) = 2%nat.
 Proof.
   exists [OConnCreate inbox_name; OAppend inbox_name 7%N RemFail; OMove recov_name [1] inbox_name true false; OAppend inbox_name 7%N RemFail], 7%N.
   vm_compute. reflexivity.
